@@ -56,11 +56,13 @@ pub struct Checks {
     /// C15: the re-encoding of an accepted input has the same data-model content as the input
     /// (maps modulo entry order); only meaningful for inputs built so that nothing is omitted
     pub same_item: bool,
+    /// C01: every follow-up operation on an accepted value must not panic
+    pub followups: bool,
 }
 
 impl Checks {
-    pub const IFF: Checks = Checks { iff: true, kind_dup: false, kind_range: false, kind_extraneous: false, fixed_point: false, layers: false, prefixes: false, suffixes: false, det_output: false, same_item: false };
-    pub const NONE: Checks = Checks { iff: false, kind_dup: false, kind_range: false, kind_extraneous: false, fixed_point: false, layers: false, prefixes: false, suffixes: false, det_output: false, same_item: false };
+    pub const IFF: Checks = Checks { iff: true, kind_dup: false, kind_range: false, kind_extraneous: false, fixed_point: false, layers: false, prefixes: false, suffixes: false, det_output: false, same_item: false, followups: false };
+    pub const NONE: Checks = Checks { iff: false, kind_dup: false, kind_range: false, kind_extraneous: false, fixed_point: false, layers: false, prefixes: false, suffixes: false, det_output: false, same_item: false, followups: false };
 }
 
 pub fn ty_name(t: Ty) -> String {
@@ -305,6 +307,9 @@ pub fn check_decode(case: &Case, checks: &Checks, l: &mut Local) {
         }
     };
 
+    if checks.followups {
+        followups(case, v, l);
+    }
     if checks.same_item {
         if let (ReadAll::One(e), Outcome::Ok(out)) = (read_all(case.bytes), v.to_vec()) {
             let it = e.item();
@@ -538,5 +543,44 @@ fn layers_reject(case: &Case, l: &mut Local) {
                 l.viol(case.viol("layers", "value-api-accepts", "Err".into(), o.brief()));
             }
         }
+    }
+}
+
+/// C01 part 3: re-encode, clone, compare, Debug, drop and every crypto helper on an accepted value;
+/// none may panic (documented panics are excluded by the crypto driver itself).
+pub fn followups(case: &Case, v: &BoxSubj, l: &mut Local) {
+    l.count("followups.values");
+    let mut panic = |what: &str, p: String| {
+        let mut vi = case.viol("panic", what, "no panic".into(), p);
+        vi.key = format!("{}:panic-in-followup:{}:{}", case.pid, ty_name(case.ty), what);
+        vi
+    };
+    if let Outcome::Panic(p) = v.to_vec() {
+        let x = panic("to_vec", p);
+        l.viol(x);
+    }
+    if let Some(Outcome::Panic(p)) = v.to_tagged_vec() {
+        let x = panic("to_tagged_vec", p);
+        l.viol(x);
+    }
+    if let Outcome::Panic(p) = v.to_value() {
+        let x = panic("to_cbor_value", p);
+        l.viol(x);
+    }
+    if let Err(p) = v.clone_eq() {
+        let x = panic("clone-eq-drop", p);
+        l.viol(x);
+    }
+    if let Err(p) = subject::catch(|| v.debug().len()) {
+        let x = panic("Debug", p);
+        l.viol(x);
+    }
+    let aad300 = vec![0xa5u8; 300];
+    let aads: Vec<&[u8]> = vec![b"", b"x", &aad300];
+    let detached: Vec<&[u8]> = vec![b"", b"y", &aad300];
+    let casestr = format!("{} {} {}", ty_name(case.ty), case.entry.name(), hex(case.bytes));
+    let cx = crate::spaces::crypto::Cx { pid: case.pid, space: case.space, case: &casestr, exact: false, fams: "", slots_only: false };
+    if crate::spaces::crypto::on_any(&cx, v.as_any(), &aads, &detached, l) {
+        l.count("followups.crypto_helpers");
     }
 }
